@@ -3,7 +3,7 @@
 # every test listed as stable_pass in /root/.vp/BASELINE.json still passes.
 unset NOXREPO_POX_VERIF
 out=$(mktemp -d)
-cd /repo && /venv/bin/python -m pytest -ra -q -p no:cacheprovider --timeout=900 --continue-on-collection-errors --junitxml="$out/j.xml" >"$out/log" 2>&1
+cd "${1:-/repo}" && /venv/bin/python -m pytest -ra -q -p no:cacheprovider --timeout=900 --continue-on-collection-errors --junitxml="$out/j.xml" >"$out/log" 2>&1
 /venv/bin/python - "$out/j.xml" <<'PY'
 import json, sys, xml.etree.ElementTree as ET
 base = json.load(open('/root/.vp/BASELINE.json'))['stable_pass']
